@@ -43,6 +43,7 @@ def gen_tree(r, mx, n=None):
 
 
 # ------------------------------------------------------------------ worker: symbolic history
+@H.guarded
 def w_symbolic(arg):
     seed, idx, tier = arg
     from .. import common
@@ -55,6 +56,7 @@ def w_symbolic(arg):
 
 
 # ------------------------------------------------------------------ worker: replicat writes, reference reads
+@H.guarded
 def w_ref_reads(arg):
     seed, idx, tier = arg
     from .. import common
@@ -130,6 +132,7 @@ def w_ref_reads(arg):
 
 
 # ------------------------------------------------------------------ worker: reference writes, replicat restores
+@H.guarded
 def w_ref_writes(arg):
     seed, idx, tier = arg
     from .. import common
@@ -195,12 +198,18 @@ def micro_ties(out, drv):
     for i in range(n):
         ln = r.choice([0, 1, 2, 3, 4, 5, 6, 7, 15, 16, 17, 31, 32, 33, 64, 100, 255])
         bs = r.randbytes(ln) if r.random() < 0.8 else bytes([r.choice([0, 255, 0xfb, 0xff, 0x3e, 0x3f])]) * ln
-        hint = utils.type_hint(bs)
-        text = hint.get('!b') if isinstance(hint, dict) and len(hint) == 1 else None
-        ser = repo.serialize({'k': bs})
-        back = repo.deserialize(ser)
-        if back != {'k': bs} or utils.type_reverse(hint) != bs or text != base64.standard_b64encode(bs).decode():
-            out.violation('c14:json-hint:roundtrip', f'type_reverse(type_hint(x)) != x for {bs.hex()}', {'kind': 'b64', 'bytes': bs.hex()})
+        text = None
+        try:
+            hint = utils.type_hint(bs)
+            text = hint.get('!b') if isinstance(hint, dict) and len(hint) == 1 else None
+            ser = repo.serialize({'k': bs})
+            back = repo.deserialize(ser)
+            ok = back == {'k': bs} and utils.type_reverse(hint) == bs and text == base64.standard_b64encode(bs).decode()
+            why = 'type_reverse(type_hint(x)) != x, or the hint is not standard base64'
+        except Exception as e:  # noqa: BLE001
+            ok, why = False, 'serialize/deserialize raised %r' % (e,)
+        if not ok:
+            out.violation('c14:json-hint:roundtrip', f'{why} for x = {bs.hex()!r}', {'kind': 'b64', 'bytes': bs.hex()})
         reqs.append({'op': 'sym.b64', 'bytes': bs.hex(), 'text': text or ''})
         cases.append(('b64', bs, text))
     # type_reverse on other objects
@@ -264,6 +273,11 @@ def micro_ties(out, drv):
             out.disagreement(bad, {'kind': 'micro', 'request': req})
         else:
             out.traces_validated += 1
+    unlock_tie(out, drv)
+
+
+def unlock_tie(out, drv):
+    from replicat import exceptions
     # unlock: right and wrong password (tagged adapters), model `sym.unlock`
     with T.tagged() as reg, R.Scratch('c14_unlock') as sc:
         ps = T.Parser(reg)
@@ -311,6 +325,10 @@ def run(out, drv, info):
         wr = pool.map_async(w_ref_writes, [(out.seed, i, out.tier) for i in range(n_write)], chunksize=4)
         sym, rd, wr = sym.get(), rd.get(), wr.get()
     for obs in sym:
+        if obs.get('crashed'):
+            out.case({'crashed': obs['idx']}, False)
+            out.disagreement(f'case #{obs["idx"]} could not be driven / interpreted: {obs["what"]}', {'kind': 'crash', 'idx': obs['idx'], 'trace': obs['trace']})
+            continue
         st = obs['stats']
         out.case({'sym': st, 'encrypted': obs['encrypted']}, st['snapshots'] >= 1 and st['max_files'] >= 2 and st['puts'] >= 4)
         out.count('sym:' + ('enc' if obs['encrypted'] else 'plain'))
@@ -327,13 +345,21 @@ def run(out, drv, info):
             elif not obs['problems']:
                 out.traces_validated += 1
     for res in rd + wr:
+        if res.get('crashed'):
+            out.case({'crashed': res['idx']}, False)
+            out.disagreement(f'case #{res["idx"]} could not be driven / interpreted: {res["what"]}', {'kind': 'crash', 'idx': res['idx'], 'trace': res['trace']})
+            continue
         out.case(res['summary'], res.get('nontrivial', False))
         for d in res['dist']:
             out.count(d)
         for sig, what in res['violations']:
             out.violation(sig, what, {'kind': 'read' if res['summary']['dir'] == 'replicat→ref' else 'write', 'seed': out.seed, 'idx': res['idx'], 'tier': out.tier,
                                       'summary': res['summary']})
-    micro_ties(out, drv)
+    try:
+        micro_ties(out, drv)
+    except Exception as e:  # noqa: BLE001  (the implementation's helpers raised on well-formed input)
+        import traceback
+        out.disagreement(f'micro ties could not be driven: {type(e).__name__}: {e}', {'kind': 'micro-crash', 'trace': traceback.format_exc()[-1200:]})
 
 
 def replay(path, drv):
